@@ -96,6 +96,17 @@ def lake_lock():
     return _Lock(os.path.join(LEAN_DIR, ".lake", "verif.lock"))
 
 
+def enc_str(s: str) -> str:
+    """string -> driver token (see lean/SaVerif/Drv/Parse.lean parseStr?)"""
+    return "s:" + ".".join(str(ord(c)) for c in s)
+
+
+def dec_str(tok: str) -> str:
+    assert tok.startswith("s:")
+    body = tok[2:]
+    return "" if not body else "".join(chr(int(x)) for x in body.split("."))
+
+
 def sh(cmd, cwd=None, timeout=3600, inp=None):
     p = subprocess.run(
         cmd, cwd=cwd, input=inp, capture_output=True, text=True, timeout=timeout
@@ -177,24 +188,25 @@ class Ctx:
 
     # ------------------------------------------------------------------ translator
     def write_gen(self, name: str, content: str):
-        """Write lean/SaVerif/Gen/<name>.lean if its content changed."""
+        """Write lean/SaVerif/Gen/<name>.lean (only if its content changed, so an
+        unchanged table costs no rebuild).  The committed copy is the table of the
+        unchanged tree; evidence records which tables differ from the previous run."""
         fn = os.path.join(LEAN_DIR, "SaVerif", "Gen", name + ".lean")
-        header = "-- GENERATED by harness/props/%s.py from %s — do not edit\n" % (
-            self.pid.lower(),
-            REPO,
-        )
+        header = "-- GENERATED by harness/props/%s.py from the repository working tree — do not edit\n" % self.pid.lower()
         content = header + content
         with lake_lock():
             old = open(fn).read() if os.path.exists(fn) else None
             if old != content:
-                base = os.path.join(LEAN_DIR, "SaVerif", "GenBaseline", name + ".lean")
-                if os.path.exists(base) and open(base).read() != content:
-                    self.gen_changed.append(name)
+                self.gen_changed.append(name)
+                os.makedirs(os.path.dirname(fn), exist_ok=True)
                 with open(fn, "w") as f:
                     f.write(content)
-        base = os.path.join(LEAN_DIR, "SaVerif", "GenBaseline", name + ".lean")
-        if os.path.exists(base) and open(base).read() != content and name not in self.gen_changed:
-            self.gen_changed.append(name)
+
+    def obligation(self, name, ok, detail=""):
+        """Extra proof-side obligation decided outside lake build (rare)."""
+        self.obligations.append((name, bool(ok), detail))
+        if not ok:
+            self.broken.append({"kind": "obligation", "what": name, "detail": detail})
 
     # ------------------------------------------------------------------ proof step
     def prove(self, modules, extra_targets=("driver",)):
@@ -409,7 +421,7 @@ class Ctx:
             "theorems": [{"name": o[0], "discharged": o[1], "detail": o[2]} for o in self.obligations],
             "input_distribution": dict(sorted(self.stats.items())),
             "broken": self.broken,
-            "gen_tables_changed_vs_baseline": self.gen_changed,
+            "gen_tables_rewritten_this_run": self.gen_changed,
             "known_findings_reproduced": known_keys,
         }
         ev = {
